@@ -5,9 +5,104 @@
 
 static double num(std::string const &s) { return strtod(s.c_str(), NULL); }
 
+
+// ---- grid files: the real writers/readers on explicit grids (text passed through python, '|' = newline)
+struct gspec {
+  int mult, nd; std::vector<int> nx, per; std::vector<double> lower, upper, width, data;
+};
+static gspec read_spec(std::vector<std::string> const &a, size_t &p)
+{
+  gspec s;
+  s.mult = atoi(a[p++].c_str()); s.nd = atoi(a[p++].c_str());
+  for (int i = 0; i < s.nd; i++) s.nx.push_back(atoi(a[p++].c_str()));
+  for (int i = 0; i < s.nd; i++) s.lower.push_back(num(a[p++]));
+  for (int i = 0; i < s.nd; i++) s.upper.push_back(num(a[p++]));
+  for (int i = 0; i < s.nd; i++) s.width.push_back(num(a[p++]));
+  for (int i = 0; i < s.nd; i++) s.per.push_back(atoi(a[p++].c_str()));
+  int n = atoi(a[p++].c_str());
+  for (int i = 0; i < n; i++) s.data.push_back(num(a[p++]));
+  return s;
+}
+static void fill_grid(colvar_grid<double> &g, gspec const &s)
+{
+  g.setup(s.nx, 0.0, s.mult);
+  for (int i = 0; i < s.nd; i++) {
+    g.lower_boundaries.push_back(colvarvalue(s.lower[i]));
+    g.upper_boundaries.push_back(colvarvalue(s.upper[i]));
+    g.widths.push_back(s.width[i]);
+    g.periodic.push_back(s.per[i] != 0);
+  }
+  for (size_t k = 0; k < g.nt && k < s.data.size(); k++) g.data[k] = s.data[k];
+  g.has_data = true;
+}
+static std::string bar(std::string t) { for (auto &c : t) if (c == '\n') c = '|'; return t; }
+static std::string unbar(std::string t) { for (auto &c : t) if (c == '|') c = '\n'; return t; }
+static std::string text_arg(std::string const &line)
+{
+  size_t q = line.find(" TEXT ");
+  if (q == std::string::npos) return std::string();
+  return unbar(line.substr(q + 6));
+}
+template <class G> static void print_grid(G const &g)
+{
+  std::cout << "G " << g.mult << " " << g.nd;
+  for (size_t i = 0; i < g.nx.size(); i++) std::cout << " " << g.nx[i];
+  std::cout << " L " << g.lower_boundaries.size();
+  for (auto const &v : g.lower_boundaries) std::cout << " " << vs_hex(v.real_value);
+  std::cout << " U " << g.upper_boundaries.size();
+  for (auto const &v : g.upper_boundaries) std::cout << " " << vs_hex(v.real_value);
+  std::cout << " W " << g.widths.size();
+  for (auto const &v : g.widths) std::cout << " " << vs_hex(v);
+  std::cout << " P " << g.periodic.size();
+  for (size_t i = 0; i < g.periodic.size(); i++) std::cout << " " << (g.periodic[i] ? 1 : 0);
+  std::cout << " D " << g.data.size();
+  for (auto const &v : g.data) std::cout << " " << vs_hex(double(v));
+  std::cout << "\n";
+}
+// variables for the restart form: one exact distanceZ per dimension
+static std::string cv_config(int nd, std::vector<double> const &cl, std::vector<double> const &cu,
+                             std::vector<double> const &cw, std::vector<double> const &cp)
+{
+  std::ostringstream c; c.precision(17);
+  for (int i = 0; i < nd; i++) {
+    c << "colvar {\n  name v" << i << "\n  lowerBoundary " << cl[i] << "\n  upperBoundary " << cu[i]
+      << "\n  width " << cw[i] << "\n  distanceZ {\n    main { atomNumbers " << (i + 1)
+      << " }\n    ref { dummyAtom (0,0,0) }\n    axis (0,0,1)\n";
+    if (cp[i] > 0.0) c << "    period " << cp[i] << "\n";
+    c << "  }\n}\n";
+  }
+  return c.str();
+}
+struct sspec { int mult, nd; std::vector<double> cl, cu, cw, cp, gl, gu, gw, data; };
+static sspec read_sspec(std::vector<std::string> const &a, size_t &p)
+{
+  sspec s; s.mult = atoi(a[p++].c_str()); s.nd = atoi(a[p++].c_str());
+  for (int i = 0; i < s.nd; i++) { s.cl.push_back(num(a[p++])); s.cu.push_back(num(a[p++])); s.cw.push_back(num(a[p++])); s.cp.push_back(num(a[p++])); }
+  for (int i = 0; i < s.nd; i++) { s.gl.push_back(num(a[p++])); s.gu.push_back(num(a[p++])); s.gw.push_back(num(a[p++])); }
+  int n = atoi(a[p++].c_str());
+  for (int i = 0; i < n; i++) s.data.push_back(num(a[p++]));
+  return s;
+}
+// a grid on the module's variables whose boundaries/widths are then set as requested (init_from_boundaries + setup)
+static colvar_grid<double> *state_grid(colvarmodule *cv, sspec const &s)
+{
+  std::vector<colvar *> cvs(*cv->variables());
+  colvar_grid<double> *g = new colvar_grid<double>(cvs, 0.0, s.mult);
+  for (int i = 0; i < s.nd; i++) {
+    g->lower_boundaries[i] = colvarvalue(s.gl[i]);
+    g->upper_boundaries[i] = colvarvalue(s.gu[i]);
+    g->widths[i] = s.gw[i];
+  }
+  g->init_from_boundaries();
+  g->setup();
+  for (size_t k = 0; k < g->nt && k < s.data.size(); k++) g->data[k] = s.data[k];
+  g->has_data = true;
+  return g;
+}
+
 int main(int argc, char **argv)
 {
-  vsim_engine eng; eng.resize(1);
+  vsim_engine eng; eng.resize(3);
   vsim_proxy *proxy = new vsim_proxy(&eng, true);   // the grid classes need cvm::main()
   std::string line;
   while (std::getline(std::cin, line)) {
@@ -94,6 +189,75 @@ int main(int argc, char **argv)
       std::istringstream iss(os.str()); gb.read_multicol(iss, false);
       for (size_t k = 0; k < gb.nt; k++) std::cout << (k ? " " : "") << vs_hex(gb.data[k]);
       std::cout << "\n";
+      cvm::clear_error();
+    } else if (cmd == "GW") {
+      // GW multicol|raw <buf>|rawg <buf>|dx <spec> : the file as the real writer produces it
+      std::string fmt = a[p++];
+      int buf = 3;
+      if (fmt == "raw" || fmt == "rawg") buf = ni();
+      gspec sp = read_spec(a, p);
+      colvar_grid<double> g; fill_grid(g, sp);
+      std::ostringstream os;
+      if (fmt == "multicol") g.write_multicol(os);
+      else if (fmt == "raw") { os.setf(std::ios::scientific, std::ios::floatfield); os.precision(14); os.width(21); g.write_raw(os, buf); }
+      else if (fmt == "rawg") { os.setf(std::ios::fmtflags(0), std::ios::floatfield); os.precision(14); g.write_raw(os, buf); }
+      else if (fmt == "dx") { os.precision(14); g.write_opendx(os); }
+      std::cout << "T " << bar(os.str()) << "\n";
+      cvm::clear_error();
+    } else if (cmd == "GR") {
+      // GR multicol <add>|raw <spec of the receiving grid> TEXT <file> : the real reader; prints the grid or ERR
+      std::string fmt = a[p++];
+      bool add = false;
+      bool remap_expected = (fmt == "multicolR");   // the re-gridding loop always ends with the stream at EOF in the failed state
+      if (remap_expected) fmt = "multicol";
+      if (fmt == "multicol") add = ni() != 0;
+      gspec sp = read_spec(a, p);
+      colvar_grid<double> g; fill_grid(g, sp);
+      std::istringstream is(text_arg(line));
+      cvm::clear_error();
+      if (fmt == "multicol") g.read_multicol(is, add); else g.read_raw(is);
+      bool bad = ((!is) && !remap_expected) || (cvm::get_error() != COLVARS_OK);
+      if (bad) std::cout << "ERR\n"; else print_grid(g);
+      cvm::clear_error();
+    } else if (cmd == "GF") {
+      // GF <mult_i> TEXT <file> : constructor from a multicolumn file
+      int mult_i = ni();
+      std::string fn = "c15_gf.dat";
+      { std::ofstream f(fn.c_str()); f << text_arg(line); }
+      cvm::clear_error();
+      colvar_grid<double> g(fn, size_t(mult_i));
+      bool bad = (cvm::get_error() != COLVARS_OK) || !g.has_data;
+      if (bad) std::cout << "ERR\n"; else print_grid(g);
+      cvm::clear_error();
+      proxy->close_input_streams();
+      remove(fn.c_str());
+    } else if (cmd == "SW" || cmd == "SR") {
+      // restart form on grids of real variables.  SW <sspec> : write_restart;  SR <sspec of receiving grid> TEXT <state>
+      sspec sp = read_sspec(a, p);
+      cvm::clear_error();
+      int err = proxy->colvars->read_config_string(cv_config(sp.nd, sp.cl, sp.cu, sp.cw, sp.cp));
+      if (err != COLVARS_OK || int(proxy->colvars->variables()->size()) != sp.nd) {
+        std::cout << "CONFIG-ERR\n";
+      } else {
+        colvar_grid<double> *g = state_grid(proxy->colvars, sp);
+        if (a.size() > p && a[p] == "GRID") {
+          // only the grid as init_from_colvars/init_from_boundaries/setup leave it
+          print_grid(*g);
+        } else if (cmd == "SW") {
+          std::ostringstream os; os.setf(std::ios::scientific, std::ios::floatfield); os.precision(14);
+          g->write_restart(os);
+          std::cout << "T " << bar(os.str()) << "\n";
+        } else {
+          std::istringstream is(text_arg(line));
+          cvm::clear_error();
+          g->read_restart(is);
+          bool bad = (!is) || (cvm::get_error() != COLVARS_OK);
+          if (bad) std::cout << "ERR\n"; else print_grid(*g);
+        }
+        delete g;
+      }
+      cvm::clear_error();
+      proxy->colvars->reset();
       cvm::clear_error();
     } else {
       std::cout << "?\n";
